@@ -87,10 +87,11 @@ Section Moved.
   (* references are printed by stringify_reference with Some(source cell) as context *)
   Definition m_src : pmode := {| pm_rc := false; pm_xlsx := false; pm_dot := dot; pm_row := mc_row mc; pm_col := mc_col mc |}.
 
-  (* "TRUE" / "FALSE" as the lexer of the language reads it *)
+  (* "TRUE" / "FALSE" as the lexer of the language reads it: a Boolean where the language says TRUE / FALSE;
+     elsewhere not a token at all (is_valid_a1_identifier rejects the two English words) *)
   Definition moved_bool (b : bool) : list token :=
     let name := if b then t_true else t_false in
-    match bool_of_name nm name with Some b' => [TBoolean b'] | None => [TIdent name] end.
+    match bool_of_name nm name with Some b' => [TBoolean b'] | None => [TIllegal] end.
 
   (* array separators: row_separator ';' ('/' in comma-decimal locales), col_separator ',' (';') *)
   Definition moved_row_sep : sep := if dot then SepSemicolon else SepSlash.
